@@ -30,7 +30,7 @@ REQUIRED = ["delivered", "decodes", "same_meaning", "opaque_bytes_equal", "dir.q
 RULE = (
     "case = one client connection (UDP or TCP, TCP streams randomly segmented, random or fifo schedule) carrying 1-3 query/response "
     "exchanges with unique ids; messages are generated from a small zone of names sharing suffixes (LDH, mixed case, underscore, "
-    "wildcard, 63-octet labels, IDNA A-labels; 12% of zones add labels that are legal but not IDNA-2003 fixed points: 0x20-mixed-case "
+    "wildcard, 63-octet labels, IDNA A-labels; in 40% of zones about half of the names INSIDE record data carry labels with arbitrary octets -- literal dots, spaces, upper case, UTF-8/0x80+ octets, 0x20-mixed or IDNA-2008 xn-- labels -- written literally and, on recurrence, behind compression pointers; 12% of zones add such labels also to owner/question names: labels that are legal but not IDNA-2003 fixed points: 0x20-mixed-case "
     "or IDNA-2008 A-labels, labels containing '.', UTF-8 labels): plain/EDNS queries, UPDATE, NOTIFY, responses with CNAME chains and all "
     "name-bearing types (NS CNAME PTR MX SOA SRV NAPTR MINFO RP AFSDB RT PX SIG NXT KX DNAME RRSIG NSEC), A/AAAA/TXT/HINFO/NULL/OPT/DS/"
     "DNSKEY/HTTPS/CAA/unknown types, integer fields and text biased to octets >= 0xC0 (0xC00C, SRV ports 49152+, UTF-8/Latin-1 text); "
